@@ -229,11 +229,16 @@ spif_str_init_from_fp(spif_str_t self, FILE *fp)
     self->size = buff_inc;
     self->len = 0;
     self->s = (spif_charptr_t) MALLOC(self->size);
+    self->s[0] = 0;
 
-    for (p = self->s; fgets((char *)p, buff_inc, fp); p += buff_inc) {
+    for (p = self->s; fgets((char *)p, buff_inc, fp); ) {
         if (!(end = (spif_charptr_t)strchr((const char *)p, '\n'))) {
-            self->size += buff_inc;
+            /* Continue right after what has been read so far, in the (possibly moved) buffer. */
+            spif_stridx_t cnt = (spif_stridx_t) ((p - self->s) + strlen((const char *) p));
+
+            self->size = cnt + buff_inc;
             self->s = (spif_charptr_t) REALLOC(self->s, self->size);
+            p = self->s + cnt;
         } else {
             *end = 0;
             break;
